@@ -60,6 +60,7 @@ type socket struct {
 	flushMu      sync.Mutex
 	flushPending atomic.Bool
 	bufMu        sync.Mutex
+	drainMu      sync.Mutex
 	// set by a graceful Close that found packets in the write buffer
 	closeWhenFlushed atomic.Bool
 }
@@ -317,6 +318,10 @@ func (s *socket) setTransport(transport transports.Transport) {
 
 // Upon transport "drain" event
 func (s *socket) onDrain() {
+	// one callback group at a time: around an upgrade the old transport's writer can still be
+	// here when the new transport drains its first batch, and callbacks keep the order of their sends
+	s.drainMu.Lock()
+	defer s.drainMu.Unlock()
 	if seqFn, err := s.sentCallbackFn.Shift(); err == nil {
 		if verifhook.Enabled {
 			verifhook.Point("socket.onDrain.afterShift", s)
